@@ -45,6 +45,8 @@ pub struct Config {
     pub for_next: Vec<String>,
     /// R-forvec: `for PAT in V BODY` with V one of these Vec variables (consumed by value)
     pub for_vec: Vec<String>,
+    /// R-derive-from: the three error-plumbing shapes of the FromDeb822 expansion (see visit_expr_mut)
+    pub derive_from: bool,
     /// R-selfmut: methods (selectors) whose `&self` receiver mutates the rowan tree through interior mutability
     pub self_mut: Vec<String>,
 }
@@ -70,6 +72,7 @@ impl Config {
         if let Some(a) = u["self_mut"].as_array() {
             c.self_mut = a.iter().map(|v| v.as_str().unwrap().to_string()).collect();
         }
+        c.derive_from = u["derive_from"].as_bool().unwrap_or(false);
         if let Some(a) = u["for_vec"].as_array() {
             c.for_vec = a.iter().map(|v| v.as_str().unwrap().to_string()).collect();
         }
@@ -123,6 +126,24 @@ impl Config {
 
 pub type Fired = BTreeMap<String, usize>;
 
+/// the two leading string literals of the (single) `format_args!(..)` inside `e`, if that is its shape
+fn format_args_lits(e: &Expr) -> Option<(syn::LitStr, syn::LitStr)> {
+    struct F(Vec<syn::Macro>);
+    impl<'ast> syn::visit::Visit<'ast> for F {
+        fn visit_macro(&mut self, m: &'ast syn::Macro) {
+            if m.path.segments.last().map(|s| s.ident == "format_args").unwrap_or(false) { self.0.push(m.clone()); }
+        }
+    }
+    let mut f = F(Vec::new());
+    syn::visit::Visit::visit_expr(&mut f, e);
+    if f.0.len() != 1 { return None; }
+    let args = f.0[0].parse_body_with(syn::punctuated::Punctuated::<Expr, syn::Token![,]>::parse_terminated).ok()?;
+    let mut it = args.iter();
+    let lit = |x: Option<&Expr>| match x { Some(Expr::Lit(syn::ExprLit { lit: syn::Lit::Str(s), .. })) => Some(s.clone()), _ => None };
+    let a = lit(it.next())?;
+    let b = lit(it.next())?;
+    Some((a, b))
+}
 fn fire(f: &mut Fired, r: &str) {
     *f.entry(r.to_string()).or_insert(0) += 1;
 }
@@ -916,6 +937,51 @@ impl<'a> VisitMut for Rewriter<'a> {
                 fire(self.fired, "R-enumerate");
                 *e = n;
             }
+        }
+        // R-derive-from (unit.json "derive_from": true): the error plumbing of `#[derive(FromDeb822)]`'s expansion.
+        //   `O.map(|v| BODY).transpose()?`          => `match O { Some(v) => Some((BODY)?), None => None }`   (beta-reduction)
+        //   `O.ok_or_else(|| ..format_args!(F, K)..)` => `vx_ok_or_fmt(O, F, K)`     (F, K: the two leading string literals
+        //   `R.map_err(|e| ..format_args!(F, K, e)..)` => `vx_map_err_fmt(R, F, K)`    of the closure's format_args!)
+        if self.cfg.derive_from {
+            let mut rep: Option<Expr> = None;
+            if let Expr::Try(t) = e {
+                if let Expr::MethodCall(tr) = &*t.expr {
+                    if tr.method == "transpose" && tr.args.is_empty() {
+                        if let Expr::MethodCall(mp) = &*tr.receiver {
+                            if mp.method == "map" && mp.args.len() == 1 {
+                                if let Expr::Closure(cl) = &mp.args[0] {
+                                    if cl.inputs.len() == 1 {
+                                        let recv = &mp.receiver;
+                                        let pat = &cl.inputs[0];
+                                        let body = &cl.body;
+                                        rep = Some(parse_quote!(match #recv { Some(#pat) => Some((#body)?), None => None }));
+                                        fire(self.fired, "R-derive-from:transpose");
+                                    }
+                                }
+                            }
+                        }
+                    }
+                }
+            }
+            if let Expr::MethodCall(mc) = e {
+                if mc.args.len() == 1 && (mc.method == "ok_or_else" || mc.method == "map_err") {
+                    if let Expr::Closure(cl) = &mc.args[0] {
+                        let recv = &mc.receiver;
+                        let (f, k) = match format_args_lits(&cl.body) {
+                            Some(x) => x,
+                            None => die(&format!("R-derive-from: `.{}(..)` whose closure is not a format_args! of two leading string literals (unsupported construct)", mc.method)),
+                        };
+                        if mc.method == "ok_or_else" {
+                            rep = Some(parse_quote!(vx_ok_or_fmt(#recv, #f, #k)));
+                            fire(self.fired, "R-derive-from:ok_or_else");
+                        } else {
+                            rep = Some(parse_quote!(vx_map_err_fmt(#recv, #f, #k)));
+                            fire(self.fired, "R-derive-from:map_err");
+                        }
+                    }
+                }
+            }
+            if let Some(n) = rep { *e = n; }
         }
         // R-call-map: `Path::to::f(args)` => `g(args)`
         if let Expr::Call(c) = e {
